@@ -22,6 +22,7 @@ type Ev struct {
 	Thread int    // -1 = sequential prefix/suffix
 	Parent string // for pseudo-ops: the call they were decomposed from
 	CBAmbig  bool    // a SetEvictedCallback overlaps this call: it may have used the callback in force before or after
+	CBCands  []model.CBState // ... namely any of these settings (the one at its invocation plus every overlapping SetEvictedCallback)
 	DefCands []int64 // default expirations set by SetDefaultExpiration calls overlapping this call (it may have read any of them)
 	Nows   []int64 // ticking-clock mode, pseudo-ops: [first clock read, clock at return] (the span the call may decide in)
 	Reads  []int64 // ticking-clock mode, ordinary calls: every instant the call read; it may decide visibility by any of them and stamp a new expiry from any of them
@@ -162,10 +163,24 @@ func (s *searcher) dfs(st *model.M, mask uint64, depth int) bool {
 		if e.CBAmbig {
 			base := variants
 			for _, b := range base {
-				c := b.Clone()
-				c.CB = !c.CB
-				c.CBFlip = true
-				variants = append(variants, c)
+				if len(e.CBCands) == 0 {
+					c := b.Clone()
+					c.CBSave, c.CBTagSave = c.CB, c.CBTag
+					c.CB, c.CBTag = !c.CB, 0
+					c.CBFlip = true
+					variants = append(variants, c)
+					continue
+				}
+				for _, cs := range e.CBCands {
+					if cs.On == b.CB && (cs.Tag == b.CBTag || !cs.On) {
+						continue // the base variant itself
+					}
+					c := b.Clone()
+					c.CBSave, c.CBTagSave = c.CB, c.CBTag
+					c.CB, c.CBTag = cs.On, cs.Tag
+					c.CBFlip = true
+					variants = append(variants, c)
+				}
 			}
 		}
 		if len(e.Reads) > 0 {
@@ -176,7 +191,7 @@ func (s *searcher) dfs(st *model.M, mask uint64, depth int) bool {
 				for _, lv := range e.Reads {
 					for _, st := range e.Reads {
 						c := b.Clone()
-						c.DOvr, c.CBFlip = b.DOvr, b.CBFlip
+						c.DOvr, c.CBFlip, c.CBSave, c.CBTagSave = b.DOvr, b.CBFlip, b.CBSave, b.CBTagSave
 						c.PinNow, c.PinStamp = lv, st
 						variants = append(variants, c)
 					}
@@ -193,7 +208,7 @@ func (s *searcher) dfs(st *model.M, mask uint64, depth int) bool {
 			err := c.Step(&e.Op, e.Res)
 			c.DOvr = nil
 			if c.CBFlip {
-				c.CB = !c.CB
+				c.CB, c.CBTag = c.CBSave, c.CBTagSave
 				c.CBFlip = false
 			}
 			if err != nil {
